@@ -34,6 +34,7 @@ SPEC_CLAUSES = {
     "diff-panic": "Diff panicked instead of returning",
     "flm-sound": "findLongestMatch returned a block outside the window or slices that differ",
     "flm-maximal": "findLongestMatch missed a longer common run inside the window",
+    "flm-earliest": "findLongestMatch did not return the longest run that starts earliest in a, then earliest in b",
     "flm-panic": "findLongestMatch panicked",
     "blocks": "matchingBlocks: not a list of non-empty equal slices in increasing order followed by the sentinel",
     "opcodes-tile": "GetOpCodes: the codes do not tile both texts, or a tag's promise is broken",
